@@ -51,6 +51,7 @@
 (*            plus its filter pat / m / h / q / s as FilterP; quota = [id, kind,  *)
 (*            pat, m, h, q, s]                                                    *)
 (*   QMax, QW, QKind : [quota id -> ...],  LimQ : [Limiter key -> quota id]       *)
+(*   QExp, QGc : [quota id -> request_expiration_sec / gc_interval_sec in ticks]  *)
 (*   GenStatus : [GenerateResponse key -> status],  SetH : [TransformAPICall key  *)
 (*   -> <<side, header name, value>>] (a "set" rule on a request / response header) *)
 (*   StRange : [Filter key -> <<from, to>>] (status_code_range),                   *)
@@ -59,7 +60,7 @@
 (*   WCache : [WriteCache key -> the same], CacheTtl = ttl_seconds                 *)
 EXTENDS FlowGraphP
 
-CONSTANTS Cfg, QIds, QKind, QMax, QW, LimQ, GenStatus, SetH, StRange, RetryA, RCache, WCache, CacheTtl, TxIds, SqIds
+CONSTANTS Cfg, QIds, QKind, QMax, QW, QExp, QGc, LimQ, GenStatus, SetH, StRange, RetryA, RCache, WCache, CacheTtl, TxIds, SqIds
 
 VARIABLES now,
           lo, hi, charged, admitted, fwlast,        \* FixedWindowP (fixed-window quotas)
@@ -79,7 +80,7 @@ FW == INSTANCE FixedWindowP WITH
 
 CQ == INSTANCE ConcurrencyP WITH
         Quota <- Conc, Parent <- [q \in Conc |-> "-"], Max <- QMax,
-        Expiry <- [q \in Conc |-> BigT], GcPeriod <- [q \in Conc |-> BigT],
+        Expiry <- [q \in Conc |-> QExp[q]], GcPeriod <- [q \in Conc |-> QGc[q]],
         Txn <- TxIds, Leaves <- {}, Steps <- {}, MaxNow <- BigT, last <- cqlast
 
 fwvars == <<lo, hi, charged, admitted, fwlast>>
